@@ -127,3 +127,55 @@ def find_witness(obligation, seed, budget=3000):
     finally:
         drv.close()
     return w, ("witness found" if w else "searched %d inputs, none disagrees" % budget)
+
+
+# ---------------------------------------------------------------- C08 fold
+F_ORDER_SENSITIVE = """
+fn f(e: u32, acc: u32) -> u32 {
+    let prod: u64 = jet::multiply_32(acc, 31);
+    let (hi, lo): (u32, u32) = <u64>::into(prod);
+    let (carry, sum): (bool, u32) = jet::add_32(lo, e);
+    sum
+}
+"""
+
+def spec_fold(es, init):
+    acc = init
+    for e in es:
+        acc = (acc * 31 + e) % 2 ** 32
+    return acc
+
+
+def fold_program(bound, es, init, via_witness):
+    exp = spec_fold(es, init)
+    lst = "list![%s]" % ", ".join(str(e) for e in es)
+    if via_witness:
+        src = F_ORDER_SENSITIVE + "fn main() {\n    let r: u32 = fold::<f, %d>(witness::LIST, %d);\n    assert!(jet::eq_32(r, %d));\n}\n" % (bound, init, exp)
+        wit = "mod witness { const LIST: List<u32, %d> = %s; }" % (bound, lst)
+    else:
+        src = F_ORDER_SENSITIVE + "fn main() {\n    let l: List<u32, %d> = %s;\n    let r: u32 = fold::<f, %d>(l, %d);\n    assert!(jet::eq_32(r, %d));\n}\n" % (bound, lst, bound, init, exp)
+        wit = ""
+    return src, wit, exp
+
+
+@searcher("fold/list_fold")
+def search_fold(drv, rng, budget):
+    """every bound 2..256, every length < bound (sampled for the large bounds), literal and witness lists"""
+    n = 0
+    for bound in (2, 4, 8, 16, 32, 64, 128, 256):
+        lens = list(range(bound)) if bound <= 32 else sorted(set([0, 1, 2, bound // 2 - 1, bound // 2, bound // 2 + 1, bound - 2, bound - 1] + [rng.randrange(bound) for _ in range(6)]))
+        for k in lens:
+            es = [rng.randrange(1, 2 ** 32) for _ in range(k)]
+            init = rng.randrange(2 ** 32)
+            for via_witness in (False, True):
+                src, wit, exp = fold_program(bound, es, init, via_witness)
+                got = drv.call("run", hx(src), hx(""), hx(wit), "0")
+                n += 1
+                if got != "ok":
+                    return {"call": "fold::<f, %d> over %d elements (%s list)" % (bound, k, "witness" if via_witness else "literal"),
+                            "input": {"bound": bound, "elements": es, "init": init, "program": src, "witness": wit},
+                            "op": ["run", hx(src), hx(""), hx(wit), "0"],
+                            "expected": "ok", "observed": got}
+                if n >= budget:
+                    return None
+    return None
